@@ -127,7 +127,7 @@ func TestC13_Sort(t *testing.T) {
 	if thorough() {
 		maxLen = 400
 	}
-	rapid.Check(t, func(t *rapid.T) {
+	check(t, func(t *rapid.T) {
 		fn := gen.Pick(t, "fn", []string{"sort", "sort_by", "sort_by", "sort_by", "min", "max", "min_by", "max_by"})
 		by := strings.HasSuffix(fn, "_by")
 		n := rapid.IntRange(0, 16).Draw(t, "n")
